@@ -17,6 +17,8 @@ import (
 
 //verif:stub crypto/aes.NewCipher zzverifstubs.NewCipher
 //verif:stub crypto/cipher.NewGCM zzverifstubs.NewGCM
+//verif:stub crypto/cipher.NewGCMWithTagSize zzverifstubs.NewGCMWithTagSize
+//verif:stub crypto/cipher.NewGCMWithNonceSize zzverifstubs.NewGCMWithNonceSize
 //verif:stub golang.org/x/crypto/chacha20poly1305.New zzverifstubs.NewChaCha
 //verif:stub golang.org/x/crypto/hkdf.New zzverifstubs.HKDFNew
 //verif:stub crypto/hmac.New zzverifstubs.HmacNew
